@@ -12,6 +12,10 @@ def body(ctx):
     outdir, meta = ctx.harness("c06", n)
     ctx.correspond(outdir, nontrivial_tag=lambda t: any(x in t for x in (
         "star-fallback", "struct-switch", "any-shortcut", "implicit-prefix", "noField", "notWritable", "notOverridable", "read-noField", "resolved-target")))
+    # whole programs: every incorrect_standard_library_use diagnostic of generated programs under generated libraries, with range and
+    # message, vs the tree-level model of Selene/Std/Prog.lean — the model `C06_prog_*` lifts this property's theorems to
+    outdir, meta = ctx.harness("stdprog", 60 if ctx.tier == "quick" else 2500)
+    ctx.correspond(outdir, nontrivial_tag=lambda t: any(x in t for x in ("no-field", "not-writable", "not-overridable")), ignore_spec=lambda item: not item.startswith("[C06]"))
     if ctx.tier == "thorough":
         for k in range(1, 3):
             outdir, meta = ctx.harness("c06", n, seed=ctx.seed + k, name=f"c06-{k}")
